@@ -4,13 +4,14 @@ from gen import common, framing
 from gen.common import hexs
 from gen.props.C01 import replay as _replay01  # same harness / component
 
-LEAN_MODULE = "XcmModel.Props.C07"
+LEAN_MODULE = ["XcmModel.Props.C07", "XcmModel.Props.Funcs"]
 THEOREMS = [
     "XcmModel.C07.receive_not_abort", "XcmModel.C07.safeInv_run",
     "XcmModel.C07.C07_bounded_buffer", "XcmModel.C07.refDecode_frames",
     "XcmModel.C07.C07_reference_decoder", "XcmModel.C07.C07_illegal_length_eproto",
     "XcmModel.C07.C07_eproto_sticky",
     "XcmModel.C07btls.C07_btls_handshake_garbage", "XcmModel.C07btls.C07_btls_record_garbage", "XcmModel.C07btls.C07_btls_no_abort",
+    "XcmModel.FuncsTie.mbuf_is_hdr_valid_tie", "XcmModel.FuncsTie.mbuf_is_hdr_valid_incomplete",
 ]
 
 
